@@ -2,7 +2,10 @@ use crate::{
     infrastructure::instance::InstanceHandle,
     transport::types::TopicKind,
     xtypes::{
-        dynamic_type::{DynamicData, DynamicDataFactory, DynamicType, DynamicTypeMember, TypeKind},
+        dynamic_type::{
+            DynamicData, DynamicDataFactory, DynamicType, DynamicTypeMember, ExtensibilityKind,
+            TypeKind,
+        },
         error::{XTypesError, XTypesResult},
         serializer::serialize_final_without_header,
     },
@@ -109,11 +112,96 @@ impl<'a> KeyHolderData<'a> {
     }
 }
 
+/// Largest key serialization that is still sent verbatim (zero padded) as key hash.
+const KEY_HASH_LENGTH: usize = 16;
+
+/// Offset reached after serializing (plain CDR, as `serialize_final_without_header` does) a value
+/// of the type whose variable-length parts have their maximum length, starting at `offset`.
+/// `None` when the type has an unbounded part. The size grows monotonically with the length of
+/// every part, so this is the maximum serialized size. The walk stops early once the result is
+/// known to exceed [`KEY_HASH_LENGTH`].
+fn max_serialized_end(dynamic_type: &DynamicType, offset: usize) -> Option<usize> {
+    fn aligned(offset: usize, alignment: usize) -> usize {
+        offset.div_ceil(alignment) * alignment
+    }
+    fn bound_of(dynamic_type: &DynamicType) -> Option<usize> {
+        match dynamic_type.descriptor.bound.first() {
+            None | Some(0) | Some(&u32::MAX) => None,
+            Some(&b) => Some(b as usize),
+        }
+    }
+    if offset > KEY_HASH_LENGTH {
+        return Some(offset);
+    }
+    match dynamic_type.get_kind() {
+        TypeKind::BOOLEAN | TypeKind::BYTE | TypeKind::INT8 | TypeKind::UINT8 | TypeKind::CHAR8 => {
+            Some(offset + 1)
+        }
+        TypeKind::INT16 | TypeKind::UINT16 | TypeKind::CHAR16 => Some(aligned(offset, 2) + 2),
+        TypeKind::INT32 | TypeKind::UINT32 | TypeKind::FLOAT32 => Some(aligned(offset, 4) + 4),
+        TypeKind::INT64 | TypeKind::UINT64 | TypeKind::FLOAT64 => Some(aligned(offset, 8) + 8),
+        TypeKind::FLOAT128 => Some(aligned(offset, 8) + 16),
+        TypeKind::ENUM => max_serialized_end(&dynamic_type.descriptor.discriminator_type?, offset),
+        TypeKind::STRING8 => Some(aligned(offset, 4) + 4 + bound_of(dynamic_type)? + 1),
+        TypeKind::STRING16 => {
+            Some(aligned(offset, 4) + 4 + 2 * (bound_of(dynamic_type)? + 1))
+        }
+        TypeKind::SEQUENCE | TypeKind::ARRAY => {
+            let element_type = dynamic_type.descriptor.element_type?;
+            let mut end = if dynamic_type.get_kind() == TypeKind::SEQUENCE {
+                aligned(offset, 4) + 4
+            } else {
+                offset
+            };
+            for _ in 0..bound_of(dynamic_type)? {
+                end = max_serialized_end(&element_type, end)?;
+                if end > KEY_HASH_LENGTH {
+                    break;
+                }
+            }
+            Some(end)
+        }
+        TypeKind::STRUCTURE => {
+            let is_mutable =
+                dynamic_type.descriptor.extensibility_kind == ExtensibilityKind::Mutable;
+            let mut end = offset;
+            for member in dynamic_type.member_list {
+                if is_mutable || member.descriptor.is_optional {
+                    // parameter header, the value is aligned relative to its own start
+                    end = aligned(end, 4) + 4;
+                    end += max_serialized_end(&member.descriptor.r#type, 0)?;
+                } else {
+                    end = max_serialized_end(&member.descriptor.r#type, end)?;
+                }
+            }
+            if is_mutable {
+                end = aligned(end, 4) + 4;
+            }
+            Some(end)
+        }
+        // Not used as key members so far: be conservative and use the digest
+        _ => None,
+    }
+}
+
 pub fn get_instance_handle_from_key_holder_data<'a>(
     key_holder_data: &KeyHolderData<'a>,
 ) -> Result<InstanceHandle, XTypesError> {
     let data = serialize_final_without_header(Vec::new(), &key_holder_data.0)?;
-    let key = if data.len() <= 16 {
+    // DDS-XTypes 7.6.8 / DDSI-RTPS 9.6.4.8: whether the key is sent verbatim or as MD5 digest is
+    // decided by the maximum size the serialized key of the type can have, not by the size of
+    // this particular key, so that every sample of the type uses the same form.
+    // (the key holder itself is serialized as a final structure, see above)
+    let is_max_size_within_key_hash = key_holder_data
+        .0
+        .r#type()
+        .member_list
+        .iter()
+        .try_fold(0, |end, member| {
+            max_serialized_end(&member.descriptor.r#type, end)
+        })
+        .is_some_and(|max_size| max_size <= KEY_HASH_LENGTH);
+    let key = if is_max_size_within_key_hash && data.len() <= KEY_HASH_LENGTH {
         let mut key = [0; 16];
         key[0..data.len()].copy_from_slice(&data);
         key
